@@ -121,3 +121,27 @@ package digest
 //@   trusted
 //@   modifies nothing
 //@   ensures len(result) >= 1 && fresh(base(result))
+
+// ---- as seen by the completeness checker (C13): trusted helpers.
+//@ func (Function).NewDigestFromProto
+//@   trusted
+//@   modifies nothing
+//@ func NewSetBuilder
+//@   trusted
+//@   modifies nothing
+//@   ensures fresh(result.digests)
+//@ func (SetBuilder).Length
+//@   trusted
+//@   modifies nothing
+//@   ensures result >= 0
+//@ func (SetBuilder).Add
+//@   trusted
+//@   modifies nothing
+//@ func (SetBuilder).Build
+//@   trusted
+//@   modifies nothing
+//@ func (Set).First
+//@   inline
+//@ func (Digest).GetDigestFunction
+//@   trusted
+//@   modifies nothing
